@@ -225,7 +225,9 @@ def irrelevant(label, opts):
 
 def base_urls():
     hosts = ["a.com", "www.a.com", "WWW2.A.Com", "m.a.com", "mobile.a.com", "forum-m.example.com", "wwwx.a.com", "am.a.com", "amp.a.com", "amp-edition.a.com",
-             "xn--tlrama-bvab.fr", "a.www.b.com", "www.m.a.com", "u:p@www.a.com", "a.com:8080", "a.com:80", "a.com:443", "programm.a.com", "m-x.a.com", "x-m.a.com"]
+             "xn--tlrama-bvab.fr", "a.www.b.com", "www.m.a.com", "u:p@www.a.com", "a.com:8080", "a.com:80", "a.com:443", "programm.a.com", "m-x.a.com", "x-m.a.com",
+             # hosts made of irrelevant labels only (fully-qualified spellings: the trailing dot closes the label)
+             "www.", "m.", "www.m.", "amp.", "www", "amp-"]
     paths = ["", "/", "/a", "/a/", "/A/b/", "/index.html", "/a/index.php", "/a/default.aspx", "/index", "/a/indexes.html", "/a/amp", "/a/amp/", "/a.amp", "/a.amp.html",
              "/camp", "/a/../b/./c//d", "/a%2Fb", "/a/INDEX.html", "/a/index.html/"]
     queries = [None, "id=1", "b=2&a=1", "utm_source=x&id=1", "id=1&utm_campaign=y&page=2", "id=1&amp;page=2", "q=%41&k=a+b", "amp=1&x=1", "x=1&fbclid=abc"]
